@@ -719,6 +719,59 @@ func init() {
 				}
 				c.Check(bad == "", ks.key("nil-checked:"+what+"@"+c.P.FuncName(fn)), c.P.Pos(v.Pos()), "every dereference is dominated by a nil (or ok) test", what+" may be nil and is dereferenced at "+bad+" without a test: a crafted packet crashes the read loop")
 			}
+			// (c) optional pointer fields of the Association: nil until some handler fills them
+			ctor := c.Fn("createAssociationFromConfigWithTsn")
+			_, ast := c.P.NamedStruct("Association")
+			optional := map[*types.Var]bool{}
+			if ast != nil {
+				for i := 0; i < ast.NumFields(); i++ {
+					f := ast.Field(i)
+					pt, isPtr := f.Type().Underlying().(*types.Pointer)
+					if !isPtr {
+						continue
+					}
+					if _, isStruct := pt.Elem().Underlying().(*types.Struct); !isStruct {
+						continue
+					}
+					set := false
+					for _, g := range c.P.Region(ctor) {
+						for _, a := range c.storesIn(g, f) {
+							if !isNilConst(a.Val) {
+								set = true
+							}
+						}
+					}
+					if !set {
+						optional[f] = true
+					}
+				}
+			}
+			for _, fn := range c.P.Funcs {
+				if !region[fn] {
+					continue
+				}
+				forEachInstr(fn, func(in ssa.Instruction) {
+					ld, ok := in.(*ssa.UnOp)
+					if !ok || ld.Op != token.MUL {
+						return
+					}
+					f, base := loadedField(ld)
+					if f == nil || !optional[f] || typeShort(base.Type()) != "*Association" {
+						return
+					}
+					if len(derefUses(ld)) == 0 || storedFreshBefore(ld, f) {
+						return
+					}
+					bad := ""
+					for _, u := range derefUses(ld) {
+						if DominatedByExt(u, CmpCond(token.NEQ, IsLoadOf(f), isNilConst)) {
+							continue
+						}
+						bad = c.Pos(u)
+					}
+					c.Check(bad == "", ks.key("nil-checked:field "+f.Name()+"@"+c.P.FuncName(fn)), c.Pos(in), "every dereference is dominated by a nil test of the field", "Association."+f.Name()+" is nil until a handler fills it and is dereferenced at "+bad+" without a test: a chunk arriving in a state where it was never filled crashes the read loop")
+				})
+			}
 			for _, fn := range c.P.Funcs {
 				if !region[fn] {
 					continue
@@ -819,4 +872,415 @@ func init() {
 				c.Check(o.OK, key, c.Pos(o.Instr), "proven: "+o.Need.String()+" >= 0", "cannot prove "+o.What+" in bounds: need "+o.Need.String()+" >= 0 from the dominating checks (a crafted chunk panics the read loop); facts: "+o.Why)
 			}
 		}})
+}
+
+// resolveFreeVar: the value bound to a captured variable where the closure is created
+// (a captured variable is a pointer to the slot: the stored value is returned when the
+// slot has exactly one store).
+func resolveFreeVar(p *Prog, v ssa.Value) ssa.Value {
+	fv, ok := v.(*ssa.FreeVar)
+	if !ok {
+		return v
+	}
+	fn := fv.Parent()
+	idx := -1
+	for i, f := range fn.FreeVars {
+		if f == fv {
+			idx = i
+		}
+	}
+	par := fn.Parent()
+	if par == nil || idx < 0 {
+		return v
+	}
+	var bound ssa.Value
+	forEachInstr(par, func(in ssa.Instruction) {
+		if mc, ok := in.(*ssa.MakeClosure); ok && mc.Fn == ssa.Value(fn) && idx < len(mc.Bindings) {
+			bound = mc.Bindings[idx]
+		}
+	})
+	if bound == nil {
+		return v
+	}
+	return bound
+}
+
+// loadedThroughSlot: v is a load of a local slot (Alloc or captured variable) with a
+// single store; returns the stored value.
+func loadedThroughSlot(p *Prog, v ssa.Value) ssa.Value {
+	for d := 0; d < 4; d++ {
+		u, ok := v.(*ssa.UnOp)
+		if !ok || u.Op != token.MUL {
+			return v
+		}
+		slot := resolveFreeVar(p, u.X)
+		al, isAlloc := slot.(*ssa.Alloc)
+		if !isAlloc {
+			return v
+		}
+		var stores []*ssa.Store
+		var scan func(f *ssa.Function)
+		scan = func(f *ssa.Function) {
+			forEachInstr(f, func(in ssa.Instruction) {
+				if st, ok := in.(*ssa.Store); ok && resolveFreeVar(p, st.Addr) == ssa.Value(al) {
+					stores = append(stores, st)
+				}
+			})
+			for _, an := range f.AnonFuncs {
+				scan(an)
+			}
+		}
+		scan(al.Parent())
+		if len(stores) != 1 {
+			return v
+		}
+		v = stores[0].Val
+	}
+	return v
+}
+
+// freshResult: every value fn can return is allocated by that call (an allocation, a
+// composite literal, or the result of an in-package constructor that is itself fresh).
+func freshResult(p *Prog, fn *ssa.Function, d int) (bool, string) {
+	if fn == nil || fn.Blocks == nil || d > 3 {
+		return false, "body not available"
+	}
+	for _, r := range allReturns(fn) {
+		for _, rv := range retResults(r) {
+			v := rv
+			for {
+				if mi, ok := v.(*ssa.MakeInterface); ok {
+					v = mi.X
+					continue
+				}
+				if ct, ok := v.(*ssa.ChangeType); ok {
+					v = ct.X
+					continue
+				}
+				break
+			}
+			if u, ok := v.(*ssa.UnOp); ok && u.Op == token.MUL {
+				if _, isFV := u.X.(*ssa.FreeVar); isFV {
+					return false, "returns the captured variable " + u.X.Name() + ", created once outside the call"
+				}
+				if g, isG := u.X.(*ssa.Global); isG {
+					return false, "returns the package-level " + g.Name()
+				}
+			}
+			v = loadedThroughSlot(p, v)
+			switch x := v.(type) {
+			case *ssa.Alloc:
+				if x.Parent() != fn {
+					return false, "returns an object allocated outside the call"
+				}
+			case *ssa.Call:
+				sc := x.Call.StaticCallee()
+				if sc == nil || !p.inPkg(sc) {
+					return false, "returns the result of a call that cannot be followed"
+				}
+				if ok, why := freshResult(p, sc, d+1); !ok {
+					return false, why
+				}
+			case *ssa.Const:
+				// nil
+			default:
+				return false, "returns " + shortValue(p, v) + ", which outlives the call (captured, global or stored elsewhere)"
+			}
+		}
+	}
+	return true, ""
+}
+
+func init() {
+	register(&Rule{ID: "C17.R10", Props: []string{"C17", "C01"}, Engine: "E2-alias",
+		Title:   "a built-in scheduler factory hands every association its own scheduler: each function of this package stored in interleavingSettings.newStreamScheduler returns an object allocated by that very call (constructor result or literal) — never a captured or package-level instance, which every association created from the same option value would share as one pending-chunk store",
+		MinInst: 2,
+		Run: func(c *RuleCtx) {
+			f := c.field("interleavingSettings", "newStreamScheduler")
+			ks := keyer{}
+			n := 0
+			for _, fn := range c.P.Funcs {
+				for _, a := range c.storesIn(fn, f) {
+					v := a.Val
+					for i := 0; i < 6; i++ {
+						if ct, ok := v.(*ssa.ChangeType); ok {
+							v = ct.X
+						}
+						v = loadedThroughSlot(c.P, resolveFreeVar(c.P, v))
+						v = resolveFreeVar(c.P, v)
+					}
+					var fac *ssa.Function
+					switch x := v.(type) {
+					case *ssa.MakeClosure:
+						fac, _ = x.Fn.(*ssa.Function)
+					case *ssa.Function:
+						fac = x
+					}
+					if fac == nil {
+						// a caller-supplied factory or a copy of another settings value: not this package's to judge
+						c.Ok(ks.key("factory-source@"+c.P.FuncName(fn)), c.Pos(a.Instr), "factory supplied by the caller / copied from another settings value")
+						continue
+					}
+					n++
+					ok, why := freshResult(c.P, fac, 0)
+					c.Check(ok, ks.key("factory-fresh@"+c.P.FuncName(fn)), c.Pos(a.Instr), c.P.FuncName(fac)+" returns a scheduler allocated by the call", "the scheduler factory "+c.P.FuncName(fac)+" "+why+": associations built from the same option share one scheduler and send (or discard) each other's pending chunks")
+				}
+			}
+			c.Check(n >= 2, "builtin-factories", "", fmt.Sprintf("%d built-in factories examined", n), fmt.Sprintf("only %d built-in factories found", n))
+		}})
+}
+
+// readsAssocStateVar: the operand tree of v (descending into in-package callees' results
+// and arguments) reads the association state (getState() or the state field).
+func readsAssocStateVar(p *Prog, e *stateEngine, v ssa.Value, d int, seen map[ssa.Value]bool) bool {
+	if v == nil || d > 10 || seen[v] {
+		return false
+	}
+	seen[v] = true
+	switch x := v.(type) {
+	case *ssa.Call:
+		if sc := x.Call.StaticCallee(); sc != nil {
+			if sc == e.getState {
+				return true
+			}
+			if p.inPkg(sc) && sc != e.getState {
+				for _, r := range allReturns(sc) {
+					for _, rv := range retResults(r) {
+						if readsAssocStateVar(p, e, rv, d+1, seen) {
+							return true
+						}
+					}
+				}
+			}
+		}
+	case *ssa.FieldAddr:
+		if f := fieldOf(x.X.Type(), x.Field); f != nil && f.Name() == "state" && typeShort(x.X.Type()) == "*Association" {
+			return true
+		}
+	}
+	in, ok := v.(ssa.Instruction)
+	if !ok {
+		return false
+	}
+	for _, op := range in.Operands(nil) {
+		if *op != nil && readsAssocStateVar(p, e, *op, d+1, seen) {
+			return true
+		}
+	}
+	return false
+}
+
+func init() {
+	register(&Rule{ID: "C08.R7", Props: []string{"C08", "C07"}, Engine: "E3",
+		Title:   "FORWARD-TSN / I-FORWARD-TSN are honoured in every state in which DATA can still be outstanding: in handleForwardTSN and handleIForwardTSN no test that dominates the cumulative-TSN advance or the per-stream skip reads the association state — a shutdown initiator in SHUTDOWN-SENT must still let the peer (draining in SHUTDOWN-RECEIVED) skip abandoned chunks, or the peer never empties its queue and the shutdown never completes",
+		MinInst: 4,
+		Run: func(c *RuleCtx) {
+			e, err := c.P.States()
+			if err != nil {
+				panic(unresolved{err.Error()})
+			}
+			adv := c.Fn("Association.handlePeerLastTSNAndAcknowledgement")
+			ks := keyer{}
+			for _, hn := range []string{"Association.handleForwardTSN", "Association.handleIForwardTSN"} {
+				h := c.Fn(hn)
+				n := 0
+				for _, g := range c.P.Region(h) {
+					forEachInstr(g, func(in ssa.Instruction) {
+						ci, ok := in.(ssa.CallInstruction)
+						if !ok {
+							return
+						}
+						sc := ci.Common().StaticCallee()
+						if sc == nil {
+							return
+						}
+						nm := c.P.FuncName(sc)
+						if sc != adv && !strings.HasPrefix(nm, "Stream.handleForwardTSNFor") {
+							return
+						}
+						n++
+						var bad []string
+						for _, f := range localFactsUpTo(in, h) {
+							if readsAssocStateVar(c.P, e, f.Cond, 0, map[ssa.Value]bool{}) {
+								bad = append(bad, fmt.Sprintf("%s=%v", shortValue(c.P, f.Cond), f.Taken))
+							}
+						}
+						c.Check(len(bad) == 0, ks.key("forward-not-state-gated:"+nm+"@"+hn), c.Pos(in), "not conditioned on the association state", "the skip is applied only if "+strings.Join(bad, " ∧ ")+": in the other states abandoned chunks are never skipped, the peer's queue never drains and a graceful shutdown hangs")
+					})
+				}
+				c.Check(n >= 2, "forward-sites@"+hn, c.P.Pos(h.Pos()), fmt.Sprintf("%d advance/skip sites", n), fmt.Sprintf("only %d advance/skip sites found in %s", n, hn))
+			}
+		}})
+}
+
+// serialSituations: the set of serial positions of (x vs ref) consistent with the facts:
+// sna helper calls and plain (in)equalities on the two values.
+func serialSituations(facts []condFact, xPat, refPat VPat) int {
+	s := snaAll
+	for _, f := range facts {
+		switch x := f.Cond.(type) {
+		case *ssa.Call:
+			if len(x.Call.Args) != 2 {
+				continue
+			}
+			_, rel, isSna := snaHelper(x.Call.StaticCallee())
+			if !isSna {
+				continue
+			}
+			a, b := x.Call.Args[0], x.Call.Args[1]
+			switch {
+			case xPat(a) && refPat(b):
+				s &= snaSet(rel, f.Taken)
+			case refPat(a) && xPat(b):
+				s &= snaMirror(snaSet(rel, f.Taken))
+			}
+		case *ssa.BinOp:
+			if x.Op != token.EQL && x.Op != token.NEQ {
+				continue
+			}
+			if !(xPat(x.X) && refPat(x.Y) || refPat(x.X) && xPat(x.Y)) {
+				continue
+			}
+			eq := (x.Op == token.EQL) == f.Taken
+			if eq {
+				s &= snaEqual
+			} else {
+				s &= snaAll &^ snaEqual
+			}
+		}
+	}
+	return s
+}
+
+func snaSetName(s int) string {
+	var p []string
+	for _, x := range []struct {
+		b int
+		n string
+	}{{snaBefore, "before"}, {snaEqual, "equal"}, {snaAfter, "after"}, {snaAntipode, "antipode"}} {
+		if s&x.b != 0 {
+			p = append(p, x.n)
+		}
+	}
+	return "{" + strings.Join(p, ",") + "}"
+}
+
+func init() {
+	register(&Rule{ID: "C07.R8", Props: []string{"C07", "C01", "C14"}, Engine: "E6-sibling",
+		Title:   "readability and read agree on the ordered head: the serial positions of the head set's SSN (MID) relative to nextSSN (nextMID) for which isReadable() answers true are exactly those for which read() dequeues it — isReadable only gates the wake-up, so a narrower test (== instead of ≤) leaves a reader asleep behind a complete message that a FORWARD-TSN has already skipped past, with every later message queued behind it",
+		MinInst: 2,
+		Run: func(c *RuleCtx) {
+			ir, rd := c.Fn("reassemblyQueue.isReadable"), c.Fn("reassemblyQueue.read")
+			type pair struct {
+				name      string
+				x, ref    *types.Var
+				container *types.Var
+			}
+			pairs := []pair{
+				{"ssn", c.field("chunkSet", "ssn"), c.field("reassemblyQueue", "nextSSN"), c.field("reassemblyQueue", "ordered")},
+				{"mid", c.field("chunkSetMID", "mid"), c.field("reassemblyQueue", "nextMID"), c.field("reassemblyQueue", "orderedMID")},
+			}
+			for _, pr := range pairs {
+				xp, rp := IsLoadOf(pr.x), IsLoadOf(pr.ref)
+				readable := 0
+				for _, g := range c.P.Region(ir) {
+					for _, r := range allReturns(g) {
+						if g != ir {
+							continue
+						}
+						for _, lf := range leavesWithFacts(retResults(r)[0]) {
+							if IsConstBool(false)(lf.Val) {
+								continue
+							}
+							facts := append(append([]condFact{}, lf.Facts...), DomFactsX(r.Block())...)
+							if _, isK := lf.Val.(*ssa.Const); !isK {
+								cc, tt := normCond(lf.Val, true)
+								facts = append(facts, condFact{cc, tt})
+							}
+							if s := serialSituations(facts, xp, rp); s != snaAll {
+								readable |= s
+							}
+						}
+					}
+				}
+				dequeued := 0
+				for _, a := range c.storesInRegion(rd, pr.container) {
+					s := serialSituations(DomFactsX(a.Instr.Block()), xp, rp)
+					if s != snaAll {
+						dequeued |= s
+					}
+				}
+				mask := snaAll &^ snaAntipode // RFC 1982 leaves the half-space distance undefined
+				c.Check(readable != 0 && dequeued != 0 && readable&mask == dequeued&mask, "readable-iff-dequeued:"+pr.name, c.P.Pos(ir.Pos()),
+					"both accept head "+pr.name+" "+snaSetName(readable&mask)+" relative to the next expected",
+					"isReadable answers true for head "+pr.name+" "+snaSetName(readable&mask)+" but read dequeues it for "+snaSetName(dequeued&mask)+": in the difference a complete message is deliverable yet no reader is woken")
+			}
+		}})
+}
+
+func init() {
+	register(&Rule{ID: "C06.R7", Props: []string{"C06", "C19"}, Engine: "E2-dataflow",
+		Title:   "elapsed time is compared at the resolution of the limit: a Duration's Seconds()/Minutes()/Hours() is scaled (×1000 for the millisecond lifetime and RTT values) before any conversion to an integer — converting first truncates to whole seconds, so a timed-reliability chunk whose 300 ms lifetime has expired is still 'young' until the next full second and keeps being retransmitted",
+		MinInst: 2,
+		Run: func(c *RuleCtx) {
+			ks := keyer{}
+			isDurFloat := func(v ssa.Value) bool {
+				call, ok := v.(*ssa.Call)
+				if !ok {
+					return false
+				}
+				sc := call.Call.StaticCallee()
+				if sc == nil || sc.Pkg == nil || sc.Pkg.Pkg.Path() != "time" {
+					return false
+				}
+				switch sc.Name() {
+				case "Seconds", "Minutes", "Hours":
+					return true
+				}
+				return false
+			}
+			for _, fn := range c.P.Funcs {
+				forEachInstr(fn, func(in ssa.Instruction) {
+					call, ok := in.(*ssa.Call)
+					if !ok || !isDurFloat(call) {
+						return
+					}
+					bad := ""
+					for _, r := range *call.Referrers() {
+						if cv, isCv := r.(*ssa.Convert); isCv && isIntType(cv.Type()) && cv.Referrers() != nil {
+							for _, u := range *cv.Referrers() {
+								if _, isB := u.(*ssa.BinOp); isB { // used in arithmetic or a comparison (not merely printed)
+									bad = c.Pos(cv)
+								}
+							}
+						}
+					}
+					c.Check(bad == "", ks.key("scaled-before-truncation@"+c.P.FuncName(fn)), c.Pos(in), "the float duration is scaled or used as a float, not truncated first", "a Duration's float value is converted to an integer at "+bad+" before it is scaled: sub-second precision is lost (limits that are not a multiple of one second are enforced late)")
+				})
+			}
+		}})
+}
+
+// storedFreshBefore: in the load's block, the closest preceding write of field f stores a
+// freshly allocated object and no call lies between that store and the load.
+func storedFreshBefore(ld *ssa.UnOp, f *types.Var) bool {
+	b := ld.Block()
+	idx := -1
+	for i, in := range b.Instrs {
+		if in == ssa.Instruction(ld) {
+			idx = i
+		}
+	}
+	for i := idx - 1; i >= 0; i-- {
+		switch x := b.Instrs[i].(type) {
+		case *ssa.Store:
+			if fieldOfAddr(x.Addr) == f {
+				_, isAlloc := x.Val.(*ssa.Alloc)
+				return isAlloc
+			}
+		case ssa.CallInstruction:
+			return false
+		}
+	}
+	return false
 }
